@@ -156,13 +156,17 @@ def run(chk: core.Check):
     # ---- replay --------------------------------------------------------------------------------
     every = 40 if quick else 6
     emit_cfg = "SPECIFICATION Spec\nCONSTRAINT EmitState\n"
-    plans = [((10, 11), 4, {"face", "adv"}), ((7, 8), 2, {"diff", "curl"}), ((9, 9, 10), 4, {"adv"}),
+    plans = [((10, 11), 4, {"face"}), ((10, 11), 4, {"adv"}), ((7, 8), 2, {"diff", "curl"}), ((9, 9, 10), 4, {"adv"}),
              ((6, 6, 7), 2, {"diff", "curl"}), ((8, 8, 9), 3, {"filter"})]
     plans.append(((5, 5, 5), 4, {"face"}))
     variants = [("exact", np.float64), ("compile", np.float64)] + ([] if quick else [("compile", np.float32)])
     for shape, m, kinds in plans:
         ev = every * 3 if (quick and len(shape) == 3 and kinds == {"face"}) else every
+        if kinds == {"adv"}:
+            ev = 7 if quick else 2          # the sum-law cases are few: replay a large share of them
         res = mc(chk, f"emit {shape} {sorted(kinds)}", shape, m, kinds, cfg=emit_cfg, emit=(ev, seed % ev), workers=1)
+        if not res.emits:
+            raise core.MachineryError(f"no case of kinds {sorted(kinds)} on {shape} was emitted for the replay")
         seen = set()
         for e in res.emits:
             key = tlc.canon(e["cs"])
